@@ -51,6 +51,7 @@ type entRef struct {
 	ts        *ast.TypeSpec
 	vs        *ast.ValueSpec
 	idx       int
+	group     bool // gd as a whole: a positional constant group without any named constant
 }
 
 // recvBase returns the base type name of a method receiver.
@@ -77,10 +78,44 @@ func recvBase(fd *ast.FuncDecl) string {
 	}
 }
 
+// positionalConstGroup reports whether the value of a constant of the group depends on the position
+// of its spec: a parenthesised constant declaration that uses iota or the implicit repetition of
+// the previous expression list (Go specification, "Constant declarations" and "Iota").
+func positionalConstGroup(d *ast.GenDecl) bool {
+	if d.Tok != token.CONST || !d.Lparen.IsValid() {
+		return false
+	}
+	found := false
+	for _, s := range d.Specs {
+		vs, ok := s.(*ast.ValueSpec)
+		if !ok {
+			continue
+		}
+		if len(vs.Values) == 0 {
+			return true
+		}
+		for _, v := range vs.Values {
+			ast.Inspect(v, func(n ast.Node) bool {
+				if id, ok := n.(*ast.Ident); ok && id.Name == "iota" {
+					found = true
+				}
+				return true
+			})
+		}
+	}
+	return found
+}
+
 // entsOf enumerates the top-level entities of a file in source order.
-// Blank names that are mere placeholders (in a multi-name spec) and blank constants declare
-// nothing and have no effect; a single blank variable (`var _ = f()`) is an entity because its
-// initializer is evaluated.
+//
+// The blank identifier declares nothing, but a spec is more than its names:
+//   - with as many values as names (`var _, a = f(), g()`, `const _ = x`) every name owns a value,
+//     so a blank name with its value is an entity of its own (the value is evaluated / checked);
+//   - in a single-value context (`var _, a = f2()`, `var _, a T`) blank names are placeholders that
+//     belong to the named ones; a spec without any named one (`var _, _ = f2()`, `var _ T`) is one
+//     entity (idx -1): it is evaluated for its effect and nothing can override it;
+//   - in a positional constant group blank names are placeholders that keep the other constants
+//     in position, they are not entities; a group without any named constant is one entity.
 func entsOf(f *ast.File) []entRef {
 	var out []entRef
 	for _, d := range f.Decls {
@@ -104,12 +139,31 @@ func entsOf(f *ast.File) []entRef {
 					if d.Tok == token.CONST {
 						kind = "const"
 					}
+					own := len(s.Values) == len(s.Names) && !positionalConstGroup(d)
+					named := 0
 					for i, n := range s.Names {
-						if n.Name == "_" && (len(s.Names) > 1 || kind == "const") {
+						if n.Name == "_" && !own {
 							continue
 						}
+						named++
 						out = append(out, entRef{kind: kind, key: n.Name, gd: d, vs: s, idx: i})
 					}
+					if named == 0 && !positionalConstGroup(d) {
+						out = append(out, entRef{kind: kind, key: "_", gd: d, vs: s, idx: -1})
+					}
+				}
+			}
+			if positionalConstGroup(d) {
+				named := false
+				for _, s := range d.Specs {
+					if vs, ok := s.(*ast.ValueSpec); ok {
+						for _, n := range vs.Names {
+							named = named || n.Name != "_"
+						}
+					}
+				}
+				if !named {
+					out = append(out, entRef{kind: "const", key: "_", gd: d, idx: -1, group: true})
 				}
 			}
 		}
@@ -174,6 +228,19 @@ func funcSig(fset *token.FileSet, recv *ast.FieldList, ft *ast.FuncType) string 
 func tupleOf(fset *token.FileSet, e entRef) Tuple {
 	t := Tuple{Kind: e.kind, Key: e.key}
 	switch {
+	case e.group:
+		for _, s := range e.gd.Specs {
+			if vs, ok := s.(*ast.ValueSpec); ok {
+				t.Body += fmt.Sprintf("%d", len(vs.Names))
+				if vs.Type != nil {
+					t.Body += ":" + printNode(fset, vs.Type)
+				}
+				for _, v := range vs.Values {
+					t.Body += "=" + printNode(fset, v)
+				}
+				t.Body += ";"
+			}
+		}
 	case e.fd != nil:
 		t.Sig = funcSig(fset, e.fd.Recv, e.fd.Type)
 		if e.fd.Body != nil {
@@ -192,6 +259,11 @@ func tupleOf(fset *token.FileSet, e entRef) Tuple {
 			t.Sig = printNode(fset, e.vs.Type)
 		}
 		switch {
+		case e.idx < 0:
+			for _, v := range e.vs.Values {
+				t.Body += printNode(fset, v) + ","
+			}
+			t.Body += fmt.Sprintf("#all%d", len(e.vs.Names))
 		case len(e.vs.Values) == len(e.vs.Names):
 			t.Body = printNode(fset, e.vs.Values[e.idx])
 		case len(e.vs.Values) == 1:
@@ -226,7 +298,7 @@ func reduceFile(fset *token.FileSet, name string, f *ast.File, info *types.Info)
 	fr := FileRed{Name: name}
 	for _, e := range entsOf(f) {
 		t := tupleOf(fset, e)
-		if info != nil && e.kind == "const" {
+		if info != nil && e.kind == "const" && e.idx >= 0 {
 			if c, ok := info.Defs[e.vs.Names[e.idx]].(*types.Const); ok && c.Val().Kind() != constant.Unknown {
 				t.Val = c.Val().ExactString()
 			} else {
